@@ -2,7 +2,7 @@
 stable matchings, hence a function of the instance alone (relabelling equivariance)."""
 import json
 from harness import gslib, c01
-from harness.common import pmap, lean_query, guard, safe_judge
+from harness.common import pmap, lean_query, guard, safe_judge, pmap_singles
 
 LEVEL = "proof"
 ENTRY = "socialchoicekit.deterministic_matching.GaleShapley.scf"
@@ -111,8 +111,8 @@ def run_items(R, items, oriented, deadline=120.0):
     k = 0
     for case, res in zip(cases, results):
         if "results" not in res:
-            singles = pmap("c02", "impl_batch", [{"items": [it], "oriented": oriented} for it in case["items"]], deadline=10.0)
-            rs = [s["results"][0] if "results" in s else {"hang": True} for s in singles]
+            singles = pmap_singles("c02", "impl_batch", [{"items": [it], "oriented": oriented} for it in case["items"]], deadline=10.0, R=R)
+            rs = [s["results"][0] if "results" in s else ({"skipped": True} if "skipped" in s else {"hang": True}) for s in singles]
         else:
             rs = res["results"]
         for it, r in zip(case["items"], rs):
